@@ -48,7 +48,7 @@ def run(ctx):
                 raise MachineryError("broken model %s does not violate any invariant: the contract is vacuous" % name)
             ctx.tlc_runs.append(dict(name=name, expected_violation=r.violation, **r.summary()))
             continue
-        ctx.add_tlc(name, r, exhaustive=name.startswith("MC"))
+        ctx.add_tlc(name, r, exhaustive=True)
         if r.violation:
             ctx.violation("model:%s:%s" % (name, r.violation), r.out[-4000:], dict(kind="tlc_counterexample", run=name))
         ctx.log(name, r.summary())
